@@ -122,9 +122,9 @@ Qed.
 Definition passes_or_invalid (r : result unit) : Prop :=
   (exists u, r = Ok u) \/ (exists mm, r = Err (XInvalid mm)).
 
-Lemma check_tail_verdict (r' : result unit) s :
+Lemma check_tail_verdict (r' : tstate -> result unit) s :
   let m := (t <- get_ts ;;
-            match r', failed t with
+            match r' t, failed t with
             | Err XFuel, _ => throw XFuel
             | Ok _, Some mm | Err (XInvalid _), Some mm => throw (XStop mm SLate)
             | Ok _, None => ret tt
@@ -133,7 +133,7 @@ Lemma check_tail_verdict (r' : result unit) s :
   passes_or_invalid (res (m s)) -> failed (ts (post (m s))) = None.
 Proof.
   cbv zeta. unfold bind. cbn [get_ts res post].
-  destruct r' as [u|[mm|mm s0|mm s0|]]; destruct (failed (ts s)) eqn:E; cbn [throw ret res post];
+  destruct (r' (ts s)) as [u|[mm|mm s0|mm s0|]]; destruct (failed (ts s)) eqn:E; cbn [throw ret res post];
     intros [[u0 H]|[m0 H]]; try discriminate; exact E.
 Qed.
 
@@ -159,8 +159,11 @@ Lemma check_handler_verdict geom LF lvl r s :
 Proof.
   unfold check_handler.
   set (tail := fun (c : option exn) =>
-        let r' := match c with Some e => Err e | None => r end in
         t <- get_ts ;;
+        let r' := match c with
+                  | Some e => Err e
+                  | None => match r, skipreq t with Ok _, Some m => Err (XInvalid m) | _, _ => r end
+                  end in
         match r', failed t with
         | Err XFuel, _ => throw XFuel
         | Ok _, Some mm | Err (XInvalid _), Some mm => throw (XStop mm SLate)
@@ -176,7 +179,11 @@ Proof.
     rewrite E1, E2. set (s1 := post (mark s)).
     destruct (res (cleanup LF (exec geom LF lvl) s1)) as [c|e] eqn:Ec.
     - destruct (bind_ok_shape _ _ (cleanup LF (exec geom LF lvl)) (fun c0 => tail c0) s1 c Ec) as [F1 F2].
-      rewrite F1, F2. unfold tail. apply check_tail_verdict.
+      rewrite F1, F2. unfold tail.
+      apply (check_tail_verdict (fun t => match c with
+                                          | Some e => Err e
+                                          | None => match r, skipreq t with Ok _, Some m => Err (XInvalid m) | _, _ => r end
+                                          end)).
     - unfold bind at 1 2. rewrite Ec. cbn [res post].
       apply cleanup_err in Ec. subst e. intros [[u H0]|[mm H0]]; discriminate. }
   destruct r as [u|[]]; try exact H.
@@ -195,4 +202,429 @@ Proof.
   pose proof (St (start x) (or_intror Hnf)) as Hset.
   unfold checkOnce, try_ in Hp, Hset. cbn [res post] in Hp, Hset.
   apply check_handler_verdict in Hp. apply Hset. exact Hp.
+Qed.
+
+(* ---- panics: a panic raised by user code (PFail KPanic) can no longer be replaced by a later skip of a
+   cleanup function (the skip is noted, the panic stays in flight), so the hypothesis [k <> KPanic] can go.
+   [signal KPanic] only logs the event and the throw follows in run_p, so this is a direct induction over the
+   interpreter (the primitives of Prim.v are taken from the closure principle). ---- *)
+Definition bad (e : exn) : Prop := match e with XInvalid _ => False | _ => True end.
+Definition bad_res {A} (r : result A) : Prop := match r with Err e => bad e | Ok _ => False end.
+Definition psig (t : list uev) : Prop := exists mm id, In (USignal KPanic mm id) t.
+(* a panic signal in the trace: the computation ends with a failure, a panic or the fuel artefact *)
+Definition PAN {A} (m : M A) : Prop := forall s, psig (tr (w (m s))) -> bad_res (res (m s)).
+
+Lemma psig_app a b : psig (a ++ b) -> psig a \/ psig b.
+Proof. intros (mm & id & H). apply in_app_or in H. destruct H; [left|right]; exists mm, id; assumption. Qed.
+Lemma psig_nil : ~ psig [].
+Proof. intros (mm & id & []). Qed.
+Lemma pan_quiet A (m : M A) : (forall s, ~ psig (tr (w (m s)))) -> PAN m.
+Proof. intros H s Hp. destruct (H s Hp). Qed.
+Ltac in_disc H := cbn in H; repeat (destruct H as [H|H]; [discriminate H|]); destruct H.
+Ltac pan_still := apply pan_quiet; intros s0; cbn; apply psig_nil.
+
+Lemma pan_ret A (a : A) : PAN (ret a). Proof. pan_still. Qed.
+Lemma pan_throw A e : PAN (@throw A e). Proof. pan_still. Qed.
+Lemma pan_emit_g e : PAN (emit_g e). Proof. pan_still. Qed.
+Lemma pan_get_ts : PAN get_ts. Proof. pan_still. Qed.
+Lemma pan_mark_dirty : PAN mark_dirty. Proof. pan_still. Qed.
+Lemma pan_emit_u e : plain e = true -> PAN (emit_u e).
+Proof. intros He. apply pan_quiet. intros s0 (mm & id & [E|[]]). subst e. discriminate. Qed.
+Lemma pan_note_draw v : PAN (note_draw v).
+Proof. apply pan_quiet. intros s0 (mm & id & [E|[]]). discriminate. Qed.
+Lemma pan_register id f : PAN (register id f).
+Proof. apply pan_quiet. intros s0 (mm & id0 & [E|[]]). discriminate. Qed.
+Lemma pan_context_call : PAN context_call.
+Proof.
+  apply pan_quiet. intros s0 (mm & id & H). unfold context_call in H.
+  destruct (ctx (ts s0)); [|destruct (cleaning (ts s0))]; cbn in H; intuition discriminate.
+Qed.
+Lemma pan_failOnError l : PAN (failOnError l).
+Proof. apply pan_quiet. intros s0. unfold failOnError. destruct (failed (ts s0)); cbn; apply psig_nil. Qed.
+Lemma pan_drawBits n : PAN (drawBits n).
+Proof.
+  apply pan_quiet. intros s0. unfold drawBits.
+  destruct (src s0) as [[|x l]|j]; [| |destruct (Nat.leb n 64); [destruct (jsf_rand j)|]]; cbn; apply psig_nil.
+Qed.
+
+Lemma bind_shape A B (m : M A) (f : A -> M B) s :
+  match res (m s) with
+  | Ok a => res (bind m f s) = res (f a (post (m s))) /\ tr (w (bind m f s)) = tr (w (m s)) ++ tr (w (f a (post (m s))))
+  | Err e => res (bind m f s) = Err e /\ tr (w (bind m f s)) = tr (w (m s))
+  end.
+Proof. unfold bind. destruct (res (m s)); split; reflexivity. Qed.
+
+Lemma pan_bind A B (m : M A) (f : A -> M B) : PAN m -> (forall a, PAN (f a)) -> PAN (bind m f).
+Proof.
+  intros Hm Hf s Hp. pose proof (bind_shape _ _ m f s) as E. specialize (Hm s).
+  destruct (res (m s)) as [a|e]; destruct E as [E1 E2]; rewrite E1; rewrite E2 in Hp.
+  - apply psig_app in Hp. destruct Hp as [Hp|Hp]; [destruct (Hm Hp)|apply Hf; exact Hp].
+  - apply Hm. exact Hp.
+Qed.
+Lemma pan_group_d A sa (m : M (A * bool)) : PAN m -> PAN (group_d sa m).
+Proof.
+  intros Hm s Hp. specialize (Hm s).
+  assert (E : tr (w (group_d sa m s)) = tr (w (m s)) /\
+              (forall e, res (m s) = Err e -> res (group_d sa m s) = Err e)).
+  { unfold group_d. destruct (res (m s)) as [[a d]|e]; [destruct d|]; cbn; rewrite ?app_nil_r.
+    - split; [reflexivity|discriminate].
+    - destruct (wkeep_tr_nf (w (m s))) as [K1 _].
+      destruct (rd (w (m s))); cbn; rewrite ?app_nil_r, ?K1; (split; [reflexivity|discriminate]).
+    - split; [reflexivity|]. intros e0 H. injection H as ->. reflexivity. }
+  destruct E as [E1 E2]. rewrite E1 in Hp. specialize (Hm Hp).
+  destruct (res (m s)) as [x|e]; [destruct Hm|]. rewrite (E2 e eq_refl). exact Hm.
+Qed.
+Lemma pan_fresh A (m : M A) : PAN m -> PAN (with_fresh_T m).
+Proof.
+  intros Hm s (mm & id & Hin). unfold with_fresh_T in *. cbn [w tr res] in *.
+  destruct Hin as [Hin|Hin]; [discriminate|]. apply in_app_or in Hin. destruct Hin as [Hin|[Hin|[]]]; [|discriminate].
+  apply Hm. exists mm, id. exact Hin.
+Qed.
+(* catching: a handler that keeps a bad outcome bad *)
+Lemma pan_try A B (m : M A) (h : result A -> M B) :
+  PAN m -> (forall r, PAN (h r)) -> (forall r s, bad_res r -> bad_res (res (h r s))) -> PAN (try_ m h).
+Proof.
+  intros Hm Hh Hb s Hp. unfold try_ in *. cbn [res w tr wapp] in *. apply psig_app in Hp. destruct Hp as [Hp|Hp].
+  - apply Hb. apply Hm. exact Hp.
+  - apply Hh. exact Hp.
+Qed.
+Lemma pan_try_w A B (m : M A) (h : result A -> wr -> M B) :
+  PAN m -> (forall r x, PAN (h r x)) -> (forall r x s, bad_res r -> bad_res (res (h r x s))) -> PAN (try_w m h).
+Proof.
+  intros Hm Hh Hb s Hp. unfold try_w in *. cbn [res w tr wapp] in *. apply psig_app in Hp. destruct Hp as [Hp|Hp].
+  - apply Hb. apply Hm. exact Hp.
+  - apply Hh. exact Hp.
+Qed.
+(* user code's panic: the event and the throw together *)
+Lemma pan_fail kind mm id (k : M val) : PAN k ->
+  PAN (_ <- signal kind mm id ;;
+       match kind with
+       | KError => k
+       | KFatal => throw (XStop mm (SUser id))
+       | KPanic => throw (XPanic mm (SUser id))
+       end).
+Proof.
+  intros Hk s Hp. pose proof (bind_shape _ _ (signal kind mm id)
+    (fun _ => match kind with KError => k | KFatal => throw (XStop mm (SUser id)) | KPanic => throw (XPanic mm (SUser id)) end) s) as E.
+  assert (Er : res (signal kind mm id s) = Ok tt) by (unfold signal; destruct kind; reflexivity).
+  rewrite Er in E. destruct E as [E1 E2]. rewrite E1. rewrite E2 in Hp.
+  destruct kind.
+  - apply Hk. apply psig_app in Hp. destruct Hp as [(m0 & i0 & [E|[]])|Hp]; [discriminate|exact Hp].
+  - exact I.
+  - exact I.
+Qed.
+
+Section PanInterp.
+  Variable geom : nat -> N -> N.
+  Variable LF : nat.
+  Variable crun : prog -> M val.
+  Hypothesis Hcrun : forall p, PAN (crun p).
+
+  Local Notation pgroup := (P_group (@PAN) pan_ret pan_bind pan_group_d).
+  Local Notation pcoin := (P_coin (@PAN) pan_ret pan_bind pan_drawBits pan_group_d).
+  Local Notation puint := (P_genUintRange (@PAN) pan_ret pan_throw pan_bind pan_drawBits pan_group_d geom).
+  Local Notation pint := (P_genIntRange (@PAN) pan_ret pan_throw pan_bind pan_drawBits pan_group_d geom).
+  Local Notation pindex := (P_genIndex (@PAN) pan_ret pan_throw pan_bind pan_drawBits pan_group_d geom).
+  Local Notation prep := (P_rep_loop (@PAN) pan_ret pan_throw pan_bind pan_mark_dirty pan_drawBits pan_group_d).
+  Local Notation pfind := (P_find_loop (@PAN) pan_ret pan_throw pan_bind pan_group_d).
+
+  Ltac pa :=
+    repeat first
+      [ apply pan_ret | apply pan_throw | apply pan_emit_g | apply pan_emit_u; reflexivity | apply pan_get_ts
+      | apply pan_mark_dirty | apply pan_register | apply pan_context_call | apply pan_failOnError
+      | apply pan_note_draw | apply pan_drawBits | apply pan_group_d | apply pan_bind; [|intros]
+      | assumption
+      | match goal with H : forall a, PAN (_ a) |- _ => apply H end ].
+
+  (* T.cleanup reports a panic of a cleanup function (or runs out of fuel); a skip never replaces it *)
+  Definition cl_bad (r : result (option exn)) : Prop :=
+    match r with Ok (Some e) => bad e | Ok None => False | Err e => bad e end.
+
+  Lemma skip_steps_shape B m (k : M B) s2 :
+    res ((_ <- (if internal_msg m then mark_dirty else ret tt) ;; _ <- note_skip m ;; k) s2) = res (k (post (note_skip m s2))) /\
+    tr (w ((_ <- (if internal_msg m then mark_dirty else ret tt) ;; _ <- note_skip m ;; k) s2)) = tr (w (k (post (note_skip m s2)))).
+  Proof. destruct (internal_msg m); unfold bind, mark_dirty, ret, note_skip; cbn [res post w tr wapp wnil app]; split; reflexivity. Qed.
+
+  Lemma pan_cleanup_loop : forall fuel last s,
+    psig (tr (w (cleanup_loop crun fuel last s))) \/ (exists e, last = Some e /\ bad e) ->
+    cl_bad (res (cleanup_loop crun fuel last s)).
+  Proof.
+    induction fuel as [|f IH]; intros last s H; cbn [cleanup_loop]; [exact I|].
+    cbn [cleanup_loop] in H.
+    pose proof (bind_shape _ _ pop_cleanup (fun c => match c with
+        | None => ret last
+        | Some c => try_ (crun c) (fun r => match r with
+              | Err XFuel => throw XFuel
+              | Err (XInvalid m) => _ <- (if internal_msg m then mark_dirty else ret tt) ;; _ <- note_skip m ;; cleanup_loop crun f last
+              | Err e => cleanup_loop crun f (Some e)
+              | Ok _ => cleanup_loop crun f last
+              end)
+        end) s) as E.
+    assert (Hpop : (res (pop_cleanup s) = Ok None /\ tr (w (pop_cleanup s)) = []) \/
+                   (exists c id, res (pop_cleanup s) = Ok (Some c) /\ tr (w (pop_cleanup s)) = [URun id])).
+    { unfold pop_cleanup. destruct (cleanups (ts s)) as [|[id c] rest]; [left; split; reflexivity|].
+      destruct (cleaning (ts s)); [right; exists c, id; split; reflexivity|left; split; reflexivity]. }
+    destruct Hpop as [[P1 P2]|(c & id & P1 & P2)]; rewrite P1 in E; destruct E as [E1 E2]; rewrite E1; rewrite E2, P2 in H; clear E1 E2.
+    - cbn [ret res w tr wnil app] in *. destruct H as [H|(e & -> & He)]; [destruct (psig_nil H)|exact He].
+    - set (s1 := post (pop_cleanup s)) in H |- *. unfold try_ in H |- *. cbn [res w tr wapp] in H |- *.
+      assert (Hc : psig (tr (w (crun c s1))) -> bad_res (res (crun c s1))) by apply Hcrun.
+      assert (H' : psig (tr (w (crun c s1))) \/
+                   psig (tr (w (match res (crun c s1) with
+                                | Err XFuel => throw XFuel
+                                | Err (XInvalid m) => _ <- (if internal_msg m then mark_dirty else ret tt) ;; _ <- note_skip m ;; cleanup_loop crun f last
+                                | Err e => cleanup_loop crun f (Some e)
+                                | Ok _ => cleanup_loop crun f last
+                                end (post (crun c s1))))) \/
+                   (exists e, last = Some e /\ bad e)).
+      { destruct H as [H|H]; [|right; right; exact H].
+        change ([URun id] ++ ?x) with (URun id :: x) in H. destruct H as (m0 & i0 & [E|Hin]); [discriminate|].
+        apply in_app_or in Hin. destruct Hin as [Hin|Hin]; [left|right; left]; exists m0, i0; exact Hin. }
+      clear H. destruct (res (crun c s1)) as [v|[m|m st|m st|]].
+      + apply IH. destruct H' as [H|[H|H]]; [destruct (Hc H)|left; exact H|right; exact H].
+      + destruct (skip_steps_shape _ m (cleanup_loop crun f last) (post (crun c s1))) as [A B].
+        rewrite A. rewrite B in H'. apply IH. destruct H' as [H|[H|H]]; [destruct (Hc H)|left; exact H|right; exact H].
+      + apply IH. right. exists (XStop m st). split; [reflexivity|exact I].
+      + apply IH. right. exists (XPanic m st). split; [reflexivity|exact I].
+      + exact I.
+  Qed.
+
+  Lemma pan_cleanup s : psig (tr (w (cleanup LF crun s))) -> cl_bad (res (cleanup LF crun s)).
+  Proof.
+    unfold cleanup. intros H.
+    pose proof (bind_shape _ _ begin_cleanup (fun _ => r <- cleanup_loop crun LF None ;; _ <- end_cleanup ;; ret r) s) as E.
+    cbn [begin_cleanup res] in E. destruct E as [E1 E2]. rewrite E1. rewrite E2 in H. clear E1 E2.
+    apply psig_app in H. destruct H as [H|H].
+    { exfalso. destruct H as (m0 & i0 & H). cbn [begin_cleanup w tr wev] in H. destruct (ctx (ts s)); in_disc H. }
+    set (s1 := post (begin_cleanup s)) in H |- *.
+    pose proof (bind_shape _ _ (cleanup_loop crun LF None) (fun r => _ <- end_cleanup ;; ret r) s1) as E.
+    pose proof (pan_cleanup_loop LF None s1) as L.
+    destruct (res (cleanup_loop crun LF None s1)) as [r|e]; destruct E as [E1 E2]; rewrite E1; rewrite E2 in H; clear E1 E2.
+    - apply psig_app in H. destruct H as [H|H]; [|exfalso].
+      + specialize (L (or_introl H)). unfold bind. cbn [end_cleanup ret res post]. exact L.
+      + destruct H as (m0 & i0 & H). unfold bind in H. in_disc H.
+    - apply L. left. exact H.
+  Qed.
+
+  (* what follows T.cleanup: [k] rethrows what cleanup reports *)
+  Lemma pan_after_cleanup B (k : option exn -> M B) :
+    (forall c, PAN (k c)) -> (forall e s, bad e -> bad_res (res (k (Some e) s))) ->
+    PAN (bind (cleanup LF crun) k).
+  Proof.
+    intros Hk Hb s Hp. pose proof (bind_shape _ _ (cleanup LF crun) k s) as E.
+    pose proof (pan_cleanup s) as C.
+    destruct (res (cleanup LF crun s)) as [c|e]; destruct E as [E1 E2]; rewrite E1; rewrite E2 in Hp; clear E1 E2.
+    - apply psig_app in Hp. destruct Hp as [Hp|Hp]; [|apply Hk; exact Hp].
+      specialize (C Hp). destruct c as [e|]; [apply Hb; exact C|destruct C].
+    - exact (C Hp).
+  Qed.
+  (* whatever T.cleanup reports is a failure or a panic, never a skip *)
+  Lemma cleanup_loop_some : forall fuel last s e,
+    (forall e0, last = Some e0 -> bad e0) -> res (cleanup_loop crun fuel last s) = Ok (Some e) -> bad e.
+  Proof.
+    induction fuel as [|f IH]; intros last s e Hl; cbn [cleanup_loop]; [discriminate|].
+    unfold bind at 1. unfold pop_cleanup at 1 2 3.
+    destruct (cleanups (ts s)) as [|[id c] rest]; [|destruct (cleaning (ts s))]; cbn [res post ret].
+    - intros H. injection H as H. exact (Hl e H).
+    - unfold try_. cbn [res]. destruct (res (crun c _)) as [v|[m|m st|m st|]].
+      + apply IH. exact Hl.
+      + match goal with |- context [post (crun c ?s1)] =>
+          destruct (skip_steps_shape _ m (cleanup_loop crun f last) (post (crun c s1))) as [A _] end.
+        rewrite A. apply IH. exact Hl.
+      + apply IH. intros e0 H. injection H as <-. exact I.
+      + apply IH. intros e0 H. injection H as <-. exact I.
+      + discriminate.
+    - intros H. injection H as H. exact (Hl e H).
+  Qed.
+  Lemma cleanup_some s e : res (cleanup LF crun s) = Ok (Some e) -> bad e.
+  Proof.
+    unfold cleanup. unfold bind at 1. cbn [begin_cleanup res post]. unfold bind at 1.
+    match goal with |- context [res (cleanup_loop crun LF None ?s0)] =>
+      pose proof (cleanup_loop_some LF None s0) as L; destruct (res (cleanup_loop crun LF None s0)) as [r|e0] end.
+    - unfold bind at 1. cbn [end_cleanup ret res post]. intros H. injection H as ->. apply (L e); [discriminate|reflexivity].
+    - discriminate.
+  Qed.
+  Lemma bad_after_cleanup B (k : option exn -> M B) s :
+    (forall c s0, (forall e, c = Some e -> bad e) -> bad_res (res (k c s0))) -> bad_res (res (bind (cleanup LF crun) k s)).
+  Proof.
+    intros Hb. pose proof (bind_shape _ _ (cleanup LF crun) k s) as E.
+    destruct (res (cleanup LF crun s)) as [c|e] eqn:Ec; destruct E as [E1 _]; rewrite E1.
+    - apply Hb. intros e ->. exact (cleanup_some s e Ec).
+    - apply (cleanup_err LF crun) in Ec. subst e. exact I.
+  Qed.
+
+  Lemma pan_custom_end r : PAN (custom_end r).
+  Proof.
+    unfold custom_end.
+    assert (H : PAN (_ <- emit_u (UCustomEnd (match r with Ok _ => 0 | Err _ => 1 end)) ;;
+                 match r with Ok v => _ <- failOnError SCustomFOE ;; ret v | Err e => throw e end)).
+    { apply pan_bind; [apply pan_emit_u; destruct r; reflexivity|intros _]. destruct r; pa. }
+    destruct r as [v|[]]; try exact H. apply pan_throw.
+  Qed.
+  Lemma bad_custom_end r s : bad_res r -> bad_res (res (custom_end r s)).
+  Proof. destruct r as [v|[m|m st|m st|]]; intros H; try destruct H; exact I. Qed.
+
+  Lemma pan_custom_handler r : PAN (custom_handler LF crun r).
+  Proof.
+    unfold custom_handler.
+    assert (H : PAN (
+                 t0 <- get_ts ;;
+                 c <- cleanup LF crun ;;
+                 match c, r with
+                 | Some e, Err (XInvalid m) => _ <- (if internal_msg m then mark_dirty else ret tt) ;; throw e
+                 | Some e, _ => throw e
+                 | None, Ok v => ret (Some v)
+                 | None, Err (XInvalid m) => match failed t0 with Some _ => throw (XInvalid m) | None => ret None end
+                 | None, Err e => throw e
+                 end)).
+    { apply pan_bind; [apply pan_get_ts|intros t0]. apply pan_after_cleanup.
+      - intros c. destruct c as [e|]; destruct r as [v|e']; pa; destruct e'; pa; try (destruct (internal_msg m); pa); destruct (failed t0); pa.
+      - intros e s He. destruct r as [v|[m|m st|m st|]]; try exact He.
+        unfold bind. destruct (internal_msg m); cbn; exact He. }
+    destruct r as [v|[]]; try exact H. apply pan_throw.
+  Qed.
+  Lemma bad_custom_handler r s : bad_res r -> bad_res (res (custom_handler LF crun r s)).
+  Proof.
+    intros Hr. unfold custom_handler. destruct r as [v|[m|m st|m st|]]; try destruct Hr; try exact I.
+    - unfold bind at 1. cbn [get_ts res post]. apply bad_after_cleanup. intros c s0 Hc. destruct c; [exact (Hc _ eq_refl)|exact I].
+    - unfold bind at 1. cbn [get_ts res post]. apply bad_after_cleanup. intros c s0 Hc. destruct c; [exact (Hc _ eq_refl)|exact I].
+  Qed.
+
+  Lemma pan_custom_att (body : M val) : PAN body -> PAN (custom_att LF crun body).
+  Proof.
+    intros Hb. unfold custom_att. apply pan_fresh. unfold custom_inner.
+    apply pan_bind; [apply pan_emit_u; reflexivity|intros _].
+    apply pan_try; [apply pan_try; [exact Hb|apply pan_custom_end|intros; apply bad_custom_end; assumption]
+                   |apply pan_custom_handler|intros; apply bad_custom_handler; assumption].
+  Qed.
+
+  Lemma pan_run_action id (run_act : nat -> val -> M val) i s :
+    (forall i s, PAN (run_act i s)) -> PAN (run_action id run_act i s).
+  Proof.
+    intros Ha. unfold run_action. apply pan_try_w.
+    - apply pan_try_w; [apply Ha| |].
+      + intros r wa. apply pan_bind; [apply pan_emit_u; reflexivity|intros _]. destruct r; pa.
+      + intros r wa s0 Hr. destruct r as [v|e]; [destruct Hr|]. unfold bind. cbn. exact Hr.
+    - intros r wa. destruct r as [v|e]; [pa|]. destruct e; pa.
+      destruct (failed a); pa. destruct (rd wa); pa. destruct (internal_msg m); pa.
+    - intros r wa s0 Hr. destruct r as [v|[m|m st|m st|]]; try destruct Hr; exact I.
+  Qed.
+  Lemma pan_exec_action id nacts (run_act : nat -> val -> M val) :
+    (forall i s, PAN (run_act i s)) -> forall tries s, PAN (exec_action geom LF id nacts run_act tries s).
+  Proof.
+    intros Ha. induction tries as [|t IH]; intros s; cbn [exec_action]; [apply pan_throw|].
+    apply pan_bind.
+    - apply pgroup. apply pan_bind; [apply pgroup, pindex|intros i].
+      apply pan_bind; [apply pan_emit_u; reflexivity|intros _]. apply pan_run_action. exact Ha.
+    - intros r. destruct r; pa; try apply IH.
+  Qed.
+  Lemma pan_run_repeat id K nacts (chk : val -> M unit) (run_act : nat -> val -> M val) s0 :
+    (forall s, PAN (chk s)) -> (forall i s, PAN (run_act i s)) -> PAN (run_repeat geom LF id K nacts chk run_act s0).
+  Proof.
+    intros Hc Ha. unfold run_repeat. apply pan_bind; [apply Hc|intros _].
+    apply pan_bind; [apply pan_failOnError|intros _].
+    apply prep. intros s. unfold repeat_step.
+    apply pan_bind; [apply pan_exec_action; exact Ha|intros r].
+    destruct r; [|apply pan_ret]. apply pan_bind; [apply Hc|intros _].
+    apply pan_bind; [apply pan_failOnError|intros _; apply pan_ret].
+  Qed.
+
+  Theorem pan_interp : (forall g, PAN (run_g geom LF crun g)) /\ (forall p, PAN (run_p geom LF crun p)).
+  Proof.
+    apply gexp_prog_ind; intros; cbn [run_g run_p]; unfold gval.
+    - pa.
+    - apply pan_bind; [apply puint|intros; pa].
+    - apply pan_bind; [apply pint|intros; pa].
+    - apply pan_bind; [apply pindex|intros; pa].
+    - apply pan_bind; [apply pindex|intros i]. apply pgroup. apply H.
+    - apply pan_bind; [apply pcoin|intros b]. destruct b; [|pa]. apply pan_bind; [apply pgroup; assumption|intros; pa].
+    - apply pan_bind; [|intros; pa]. apply prep. intros acc.
+      unfold slice_body. apply pan_bind; [apply pgroup; assumption|intros v].
+      destruct key; [destruct (existsb _ _)|]; pa.
+    - apply pan_bind; [|intros; pa]. apply prep. intros acc.
+      unfold map_body. apply pan_bind; [|intros kv; destruct (existsb _ _); pa].
+      apply pan_bind; [apply pgroup; assumption|intros k]. apply pan_bind; [apply pgroup; assumption|intros; pa].
+    - apply pan_bind; [|intros; pa]. apply prep. intros acc.
+      unfold map_body. apply pan_bind; [|intros kv; destruct (existsb _ _); pa].
+      apply pan_bind; [apply pgroup; assumption|intros; pa].
+    - apply pan_bind; [|intros; pa]. apply prep. intros [i l].
+      unfold perm_body. apply pan_bind; [apply puint|intros; pa].
+    - apply pfind. apply pan_bind; [apply pgroup; assumption|intros; pa].
+    - apply pan_bind; [apply pgroup; assumption|intros; pa].
+    - apply pfind. apply pan_custom_att; assumption.
+    - apply pgroup; assumption.
+    - pa.
+    - apply pan_bind; [apply pgroup; assumption|intros v]. apply pan_bind; [apply pan_note_draw|intros _; apply H0].
+    - apply pan_fail. assumption.
+    - pa.
+    - apply pan_bind; [apply pan_register|intros _; assumption].
+    - apply pan_bind; [apply pan_context_call|intros b]. apply H.
+    - apply pan_bind; [apply pan_get_ts|intros t]. apply pan_bind; [apply pan_emit_u; reflexivity|intros _]. apply H.
+    - pa.
+    - destruct nacts; [apply H1|]. apply pan_bind; [|intros sfin; apply H1].
+      apply pan_run_repeat.
+      + intros s. destruct haschk; pa. apply H.
+      + intros i s. apply H0.
+  Qed.
+End PanInterp.
+
+Theorem pan_exec geom LF : forall lvl p, PAN (exec geom LF lvl p).
+Proof.
+  induction lvl as [|l IH]; intros p; cbn [exec]; [apply pan_throw|].
+  apply (proj2 (pan_interp geom LF (exec geom LF l) IH)).
+Qed.
+
+Lemma pan_check_handler geom LF lvl r : PAN (check_handler geom LF lvl r).
+Proof.
+  unfold check_handler.
+  assert (H : PAN (_ <- (match r with Err (XInvalid m) => if internal_msg m then mark_dirty else ret tt | _ => ret tt end) ;;
+      c <- cleanup LF (exec geom LF lvl) ;;
+      t <- get_ts ;;
+      let r' := match c with
+                | Some e => Err e
+                | None => match r, skipreq t with Ok _, Some m => Err (XInvalid m) | _, _ => r end
+                end in
+      match r', failed t with
+      | Err XFuel, _ => throw XFuel
+      | Ok _, Some m | Err (XInvalid _), Some m => throw (XStop m SLate)
+      | Ok _, None => ret tt
+      | Err e, _ => throw e
+      end)).
+  { apply pan_bind.
+    - destruct r as [|[]]; try apply pan_ret. destruct (internal_msg m); [apply pan_mark_dirty|apply pan_ret].
+    - intros _. apply pan_after_cleanup; [intros p0; apply pan_exec| |].
+      + intros c. apply pan_bind; [apply pan_get_ts|intros t]. cbv zeta.
+        destruct (match c with Some e => Err e | None => match r, skipreq t with Ok _, Some m => Err (XInvalid m) | _, _ => r end end)
+          as [u|[]]; destruct (failed t); try apply pan_throw; apply pan_ret.
+      + intros e s He. unfold bind. cbn [get_ts res post]. destruct e; try destruct He; destruct (failed (ts s)); exact I. }
+  destruct r as [u|[]]; try exact H. apply pan_throw.
+Qed.
+Lemma bad_check_handler geom LF lvl r s : bad_res r -> bad_res (res (check_handler geom LF lvl r s)).
+Proof.
+  intros Hr. unfold check_handler. destruct r as [v|[m|m st|m st|]]; try destruct Hr; try exact I.
+  - unfold bind at 1. cbn [ret res post]. apply bad_after_cleanup. intros c s0 Hc.
+    unfold bind. cbn [get_ts res post]. destruct c as [e|]; [specialize (Hc e eq_refl); destruct e; try destruct Hc|];
+      destruct (failed (ts s0)); exact I.
+  - unfold bind at 1. cbn [ret res post]. apply bad_after_cleanup. intros c s0 Hc.
+    unfold bind. cbn [get_ts res post]. destruct c as [e|]; [specialize (Hc e eq_refl); destruct e; try destruct Hc|];
+      destruct (failed (ts s0)); exact I.
+Qed.
+
+Theorem pan_checkOnce geom LF lvl p : PAN (checkOnce geom LF lvl p).
+Proof.
+  unfold checkOnce. apply pan_try.
+  - apply pan_bind; [apply pan_exec|intros; apply pan_failOnError].
+  - apply pan_check_handler.
+  - intros; apply bad_check_handler; assumption.
+Qed.
+
+(* C02 at the level of one test case, for every kind of signal: panics included *)
+Theorem signal_fails_case_any geom LF lvl p x k mm id :
+  let o := checkOnce geom LF lvl p (start x) in
+  In (USignal k mm id) (tr (w o)) ->
+  ~ passes_or_invalid (res o).
+Proof.
+  cbv zeta. intros Hin. destruct k; try (apply (signal_fails_case geom LF lvl p x _ mm id Hin); discriminate).
+  intros Hp. assert (Hb : bad_res (res (checkOnce geom LF lvl p (start x)))).
+  { apply pan_checkOnce. exists mm, id. exact Hin. }
+  destruct Hp as [[u E]|[m0 E]]; rewrite E in Hb; exact Hb.
 Qed.
